@@ -14,6 +14,7 @@ import (
 	"os"
 	"os/exec"
 	"path/filepath"
+	"runtime/debug"
 	"sort"
 	"strings"
 	"sync"
@@ -174,6 +175,30 @@ func (c *Ctx) Known(what string) {
 	c.Res.KnownFindings = append(c.Res.KnownFindings, what)
 }
 
+// IsKnown: is the hazard key listed with status "known" for this property in known_findings.jsonl?
+// (The lead maintains that file; harnesses only read it.)
+func (c *Ctx) IsKnown(key string) bool {
+	b, err := os.ReadFile(filepath.Join(c.Verif, "known_findings.jsonl"))
+	if err != nil {
+		return false
+	}
+	for _, line := range strings.Split(string(b), "\n") {
+		line = strings.TrimSpace(line)
+		if line == "" || strings.HasPrefix(line, "#") {
+			continue
+		}
+		var e struct {
+			Status   string `json:"status"`
+			Property string `json:"property"`
+			Key      string `json:"key"`
+		}
+		if json.Unmarshal([]byte(line), &e) == nil && e.Status == "known" && e.Property == c.ID && e.Key == key {
+			return true
+		}
+	}
+	return false
+}
+
 func sanitize(s string) string {
 	var b strings.Builder
 	for _, r := range s {
@@ -266,6 +291,22 @@ func (o *Oracle) Ask(id, req string) string {
 		panic("oracle error: " + line + " on request: " + id + " " + req)
 	}
 	return line
+}
+
+// AskRaw is Ask without the abort on ERR / FUEL: for properties where running out of fuel is an
+// ordinary outcome. The caller must not count such answers as agreement.
+func (o *Oracle) AskRaw(id, req string) string {
+	o.mu.Lock()
+	defer o.mu.Unlock()
+	if strings.ContainsAny(req, "\n\r") {
+		panic("oracle request contains newline: " + req)
+	}
+	fmt.Fprintf(o.in, "%s %s\n", id, req)
+	line, err := o.out.ReadString('\n')
+	if err != nil {
+		panic("oracle died on request: " + id + " " + req)
+	}
+	return strings.TrimRight(line, "\n")
 }
 
 func (o *Oracle) Close() {
@@ -589,6 +630,9 @@ func main() {
 			if r := recover(); r != nil {
 				// a harness error is not agreement: report it as a broken check
 				fmt.Fprintf(os.Stderr, "HARNESS ERROR: %v\n", r)
+				if os.Getenv("VH_DEBUG") != "" {
+					os.Stderr.Write(debug.Stack())
+				}
 				c.Res.Notes = append(c.Res.Notes, fmt.Sprintf("HARNESS ERROR: %v", r))
 				status = 3
 			}
